@@ -131,6 +131,9 @@ func (sidEngine) Run(ctx *fw.Ctx, cs any) {
 					continue // relay types as client message: C12's business
 				}
 				depth := rng.Intn(3)
+				if supported && rng.Intn(4) == 0 {
+					depth = []int{8, 31, 32, 33, 34, 40}[rng.Intn(6)] // around the relay hop-count limit
+				}
 				xid++
 				opts := []pkt.Opt6{pkt.O6(pkt.OptClientID6, pkt.DUIDLL([]byte{2, 0, 0, 0, 0, 1}))}
 				sid := sids[name]
